@@ -286,3 +286,77 @@ func init() {
 		RequiredCovers: []string{"404", "405", "OPTIONS", "OPTIONS *", "served by a route"},
 	}
 }
+
+func init() {
+	props["C03"] = &PropSpec{
+		ID: "C03",
+		Jobs: func(tier string) []*Job {
+			var js []*Job
+			sets := []int{0, 11}
+			ks := []int{1}
+			lps := []int{3}
+			pool := 6
+			if tier == "thorough" {
+				sets = []int{-1, 0, 2, 6, 10, 11, 14, 17, 19}
+				lps = []int{2, 4}
+				pool = 8
+			}
+			for _, s := range sets {
+				for snap := 0; snap < 5; snap++ {
+					for _, k := range ks {
+						for _, lp := range lps {
+							js = append(js, &Job{Harness: "C03Snapshot", Params: map[string]int{"set": s, "snap": snap, "k": k, "pool": pool, "lp": lp}})
+						}
+					}
+					if tier == "thorough" && snap <= 2 {
+						js = append(js, &Job{Harness: "C03Snapshot", Params: map[string]int{"set": s, "snap": snap, "k": 2, "pool": 4, "lp": 3}})
+					}
+				}
+			}
+			return js
+		},
+		Bounds: func(tier string) string {
+			if tier == "thorough" {
+				return "9 start sets x 5 snapshot kinds (Router.Iter, read-only Txn, Txn.Snapshot before/after a write, Txn.Iter after a write) x 1 later write (7 kinds, 8-pattern pool; 2 later writes with a 4-pattern pool for the first three kinds) issued directly / in a new txn / in the same txn, then commit or abort; snapshot re-observed (All, Prefix, Routes, Has, Route, Len, Lookup of every path of 2 and 4 bytes) after every step; frozen-object monitor on everything reachable from the snapshot"
+			}
+			return "2 start sets x 5 snapshot kinds (Router.Iter, read-only Txn, Txn.Snapshot before/after a write, Txn.Iter after a write) x 1 later write (7 kinds, 6-pattern pool) issued directly / in a new txn / in the same txn, then commit or abort; snapshot re-observed (All, Prefix, Routes, Has, Route, Len, Lookup of every 3-byte path) after every step; frozen-object monitor on everything reachable from the snapshot"
+		},
+		RequiredCovers: []string{"commit after snapshot", "abort after snapshot", "handle ok", "delete ok", "update ok", "truncate all"},
+		Assumptions: []string{
+			"the concurrent-reader half is reduced to the sequential one: no store ever reaches an object reachable from a snapshot (frozen-object monitor), so a reader holding it is unaffected under any interleaving; races are C05's obligation",
+			"transactions touching more than the 4096-entry writable-node cache are outside the bound",
+			"the state a request is being served from is covered through the tree pointer captured by Router.Iter (same iTree object)",
+		},
+	}
+	props["C04"] = &PropSpec{
+		ID: "C04",
+		Jobs: func(tier string) []*Job {
+			var js []*Job
+			sets := []int{-1, 0, 6, 11}
+			if tier == "thorough" {
+				sets = []int{-1, 0, 1, 2, 6, 9, 10, 11, 12, 14, 17, 19}
+			}
+			for _, s := range sets {
+				js = append(js, &Job{Harness: "C04Txn", Params: map[string]int{"set": s, "k": 1, "pool": 12}})
+				if tier == "thorough" {
+					js = append(js, &Job{Harness: "C04Txn", Params: map[string]int{"set": s, "k": 2, "pool": 8}})
+					js = append(js, &Job{Harness: "C04Txn", Params: map[string]int{"set": s, "k": 3, "pool": 3}})
+				} else {
+					js = append(js, &Job{Harness: "C04Txn", Params: map[string]int{"set": s, "k": 2, "pool": 5}})
+				}
+			}
+			return js
+		},
+		Bounds: func(tier string) string {
+			if tier == "thorough" {
+				return "12 start sets x transactions of k<=3 writes (7 kinds, methods {GET,FOO}, pattern pool 12/8/3 for k=1/2/3) x 5 endings (Commit, Abort, Updates returning nil, Updates returning an error after j ops, Updates panicking after j ops; j symbolic in 0..k); txn view, router view and a fresh read-only txn compared with the model after every step; settled-txn, double Commit/Abort, new-writer and read-only-writes obligations on every path"
+			}
+			return "4 start sets x transactions of k<=2 writes (7 kinds, methods {GET,FOO}, pattern pool 12/5 for k=1/2) x 5 endings (Commit, Abort, Updates returning nil, Updates returning an error after j ops, Updates panicking after j ops; j symbolic in 0..k); txn view, router view and a fresh read-only txn compared with the model after every step; settled-txn, double Commit/Abort, new-writer and read-only-writes obligations on every path"
+		},
+		RequiredCovers: []string{"explicit commit", "explicit abort", "managed commit", "managed: error returned", "managed: panic", "new write transaction opened"},
+		Assumptions: []string{
+			"sync.Mutex modelled (Lock on a held mutex in a single-threaded harness is reported as a deadlock violation)",
+			"'no reader observes part of a transaction' is checked sequentially between every two steps; concurrent readers are C05's obligation",
+		},
+	}
+}
